@@ -16,7 +16,9 @@
            schedule-independent fields are printed (sorted log; c12_quiescent_observables_schedule_independent).
    output: OK;log;midreq/midproc/middone;results;req/proc;stats;rounds;obs   (obs: the tasks' own checks, always -)
      log = keys joined by '.' ('-' if empty); results = tasks joined by '|', lookups by '.',
-     each S<key> (symbols of that key) or E; stats = leaf:loaded:corrupt joined by ',' *)
+     each S<key> (symbols of that key) or E; stats = leaf:loaded:corrupt joined by ','
+   lookup kind 10+alt (modes 0, 1, 4, 5): an ADAPTIVE lookup - fill_symbol on module key, or on module alt when the task's
+     previous lookup got no symbols *)
 let leaf_of_cf = [| 0; 1; 1; 2; 3; 4; 5 |]
 let nleaf = 6
 let outcome_of_int = function
@@ -38,16 +40,24 @@ let () =
         let ts_raw = List.init nt (fun _ ->
           let nl = next () in
           List.init nl (fun _ -> let k = next () in let kind = next () in (k, kind))) in
-        let ts = List.map (List.map (fun (k, _) -> nat_of_int k)) ts_raw in
-        (* modes 0, 5, 6, 7 and 2: next to the hand-written model, the interpreter of C12/ProgModel.v runs the program
-           regenerated from the Rust source *)
-        let pts = List.map (List.map (fun (k, kind) -> (nat_of_int k, nat_of_int kind))) ts_raw in
         let nk = next () in
         let keys_raw = List.init nk (fun _ ->
           let su = next () in let oc = next () in let cf = next () in
           let ci = next () in let df = next () in let di = next () in (su, oc, cf, ci, df, di)) in
         let scripts = if mode = 2 then [] else List.map (fun (su, oc, cf, _, _, _) ->
           ((nat_of_int su, outcome_of_int oc), nat_of_int leaf_of_cf.(cf))) keys_raw in
+        (* adaptive requesters (lookup kind 10+alt: ask for module alt instead when the task's previous lookup got no symbols):
+           by c12_adaptive_refines every mode's model runs on the fixed lists obtained by unfolding the strategies along the
+           scripted answers; mode 0 also runs the adaptive model itself (C12/AdaptModel.v) *)
+        let adaptive = List.exists (List.exists (fun (_, kind) -> kind >= 10)) ts_raw in
+        let rows = List.map (List.map (fun (k, kind) ->
+          (nat_of_int k, nat_of_int (if kind >= 10 then kind - 10 else k)))) ts_raw in
+        let ts = if adaptive then unfold_rows rows scripts
+                 else List.map (List.map (fun (k, _) -> nat_of_int k)) ts_raw in
+        (* modes 0, 5, 6, 7 and 2: next to the hand-written model, the interpreter of C12/ProgModel.v runs the program
+           regenerated from the Rust source *)
+        let pts = if adaptive then List.map (List.map (fun k -> (k, nat_of_int 0))) ts
+                  else List.map (List.map (fun (k, kind) -> (nat_of_int k, nat_of_int kind))) ts_raw in
         let ns = next () in
         let sched = List.init ns (fun _ -> next ()) in
         let agree = ref true in
@@ -62,6 +72,8 @@ let () =
         if mode = 0 then begin
           let o = run_case ts scripts (nat_of_int nleaf) (List.map nat_of_int sched) in
           agree := (o = run_pcase pts scripts (nat_of_int nleaf) (List.map nat_of_int sched));
+          if adaptive then
+            agree := !agree && (o = run_acase rows scripts (nat_of_int nleaf) (List.map nat_of_int sched));
           if o_hung o then add "HUNG;" else add "OK;";
           add (join "." pn (o_log o)); add ";";
           add (pn (o_mid_req o) ^ "/" ^ pn (o_mid_proc o) ^ "/" ^ pn (o_mid_done o)); add ";";
